@@ -251,7 +251,12 @@ func c06Scenario(p c06Params) *explore.Scenario {
 					fs = append(fs, explore.Finding{"connected-false-early", "Connected() was false in a " + strings.Fields(r)[0] + " handler although no disconnect had begun"})
 				}
 			case strings.HasPrefix(r, "DISCONNECTED"):
-				if !(second && p.Extra == "reconnect") && strings.HasSuffix(r, "connected=true") {
+				// Once the application has connected again, a DISCONNECTED handler of the previous connection that is
+				// still running sees the new connection. That can happen with a concurrent re-Connect, and also with
+				// Close-then-Connect from one goroutine when that Close lost the race against another cause: it returns
+				// at once, the winner is still dispatching DISCONNECTED.
+				excused := second && (p.Extra == "reconnect" || (p.Extra == "close-then-connect" && len(p.Causes) > 1))
+				if !excused && strings.HasSuffix(r, "connected=true") {
 					fs = append(fs, explore.Finding{"connected-true-in-disconnected", "Connected() was true inside a DISCONNECTED handler"})
 				}
 			}
